@@ -44,7 +44,10 @@ type Case struct {
 	// (j-1) x RetransmitInterval - longer than the WatchdogInterval for most draws. No DWR may be
 	// sent before the CEA was delivered.
 	CEAAt int `json:"cea_at,omitempty"`
-	Plans          []Plan `json:"plans"` // one per fresh DWR; the case ends after the last one (or when the client gives up)
+	// PeerDWRs: right after the handshake the peer sends that many watchdog requests of its own;
+	// the client's state machine must answer each (it is a state machine like the server's).
+	PeerDWRs int    `json:"peer_dwrs,omitempty"`
+	Plans    []Plan `json:"plans"` // one per fresh DWR; the case ends after the last one (or when the client gives up)
 }
 
 func (c Case) w() time.Duration { return time.Duration(c.WatchdogMs) * time.Millisecond }
@@ -113,6 +116,7 @@ func runOnce(c Case) result {
 	var lastID uint32
 	haveID := false
 	cers, ceaFed, earlyDWR := 0, false, false
+	var dwas [][]byte // watchdog answers written by the client
 	var pending sync.WaitGroup
 	event := make(chan struct{}, 256)
 	mc.WriteHook = func(b []byte, accept func([]byte)) (int, error) {
@@ -134,6 +138,10 @@ func runOnce(c Case) result {
 			if answer {
 				mc.Feed(ceaFor(h))
 			}
+		case h.Code == 280 && h.Flags&0x80 == 0:
+			mu.Lock()
+			dwas = append(dwas, append([]byte{}, b...))
+			mu.Unlock()
 		case h.Code == 280 && h.Flags&0x80 != 0:
 			mu.Lock()
 			if !ceaFed {
@@ -198,6 +206,10 @@ func runOnce(c Case) result {
 	}
 	handshook := time.Now()
 	defer func() { mc.FeedEOF(); mc.Close(); pending.Wait() }()
+	for i := 0; i < c.PeerDWRs; i++ {
+		mc.Feed(refcodec.EncodeMessage(refcodec.Header{Version: 1, Flags: 0x80, Code: 280, HopByHop: uint32(0x7000 + i), EndToEnd: uint32(0x7100 + i)},
+			[]*refcodec.Node{{Code: 264, Flags: 0x40, Payload: []byte("srv.example")}, {Code: 296, Flags: 0x40, Payload: []byte("example")}}, false))
+	}
 	mu.Lock()
 	early := earlyDWR
 	mu.Unlock()
@@ -250,6 +262,32 @@ func runOnce(c Case) result {
 		obs[i] = append([]tx{}, dwrs[i]...)
 	}
 	mu.Unlock()
+
+	// --- the peer's own watchdog requests were answered
+	if c.PeerDWRs > 0 {
+		deadline := time.Now().Add(3 * time.Second)
+		for {
+			mu.Lock()
+			n := len(dwas)
+			mu.Unlock()
+			if closedNow, _ := mc.Closed(); n >= c.PeerDWRs || closedNow || time.Now().After(deadline) {
+				break
+			}
+			time.Sleep(2 * time.Millisecond)
+		}
+		mu.Lock()
+		got := append([][]byte{}, dwas...)
+		mu.Unlock()
+		if len(got) < c.PeerDWRs && !(expectClose && closed) {
+			return result{fail: ev.Failf("peer-dwr-unanswered", "the peer sent %d watchdog requests right after the handshake; the client (watchdog enabled) wrote %d watchdog answers", c.PeerDWRs, len(got))}
+		}
+		for i, b := range got {
+			h, _ := refcodec.DecodeHeader(b)
+			if i < c.PeerDWRs && (h.HopByHop != uint32(0x7000+i) || h.EndToEnd != uint32(0x7100+i)) {
+				return result{fail: ev.Failf("peer-dwr-answer-ids", "answer %d to the peer's watchdog requests carries identifiers %#x / %#x, the request had %#x / %#x", i, h.HopByHop, h.EndToEnd, 0x7000+i, 0x7100+i)}
+			}
+		}
+	}
 
 	// --- assertions on every observed DWR
 	prevAckEnd := handshook
@@ -386,6 +424,9 @@ func genCase(t *rapid.T) Case {
 	if c.MaxRetransmits > 0 && rapid.IntRange(0, 3).Draw(t, "slow-cea") == 0 {
 		c.CEAAt = rapid.IntRange(2, c.MaxRetransmits+1).Draw(t, "cea-at")
 	}
+	if rapid.IntRange(0, 2).Draw(t, "peer-dwrs") == 0 {
+		c.PeerDWRs = rapid.IntRange(1, 3).Draw(t, "n-peer-dwrs")
+	}
 	n := rapid.IntRange(1, 3).Draw(t, "dwrs")
 	for i := 0; i < n; i++ {
 		var p Plan
@@ -414,6 +455,9 @@ func genCase(t *rapid.T) Case {
 
 func classify(c Case) (bool, []string) {
 	cl := []string{fmt.Sprintf("budget:%d", c.MaxRetransmits+1)}
+	if c.PeerDWRs > 0 {
+		cl = append(cl, "peer-sends-watchdog-requests-too")
+	}
 	if c.CEAAt > 1 {
 		cl = append(cl, "slow-handshake")
 		if time.Duration(c.CEAAt-1)*c.r() > c.w() {
@@ -447,7 +491,7 @@ func classify(c Case) (bool, []string) {
 
 var prop = ev.Register(&ev.Prop[Case]{
 	ID: "C13", Name: "watchdog",
-	Rule: "sm.Client with the watchdog enabled (WatchdogInterval 25..45 ms, RetransmitInterval 30..50 ms, MaxRetransmits 0..3) against a scripted peer that answers the first or (1 in 4) only the j-th transmission of the CER, so that the handshake outlasts the WatchdogInterval; per fresh DWR a plan {answer the j-th transmission with success, answer with a failing Result-Code, never answer} and an answer timing {before the client's Write returns, right after, after a quarter interval}; asserted: no DWR before the CEA was delivered, identity in every DWR, fresh DWRs >= WatchdogInterval after the previous acknowledgement, retransmissions byte-identical and >= RetransmitInterval apart, a silent peer gets exactly MaxRetransmits+1 transmissions and is then closed with nothing sent afterwards, a peer answering with success in time is never closed and sees a further DWR; every case is distinct and non-trivial (each exercises at least one full watchdog round); mismatches that a scheduling delay could explain must reproduce 3 times",
+	Rule: "sm.Client with the watchdog enabled (WatchdogInterval 25..45 ms, RetransmitInterval 30..50 ms, MaxRetransmits 0..3) against a scripted peer that answers the first or (1 in 4) only the j-th transmission of the CER, so that the handshake outlasts the WatchdogInterval; per fresh DWR a plan {answer the j-th transmission with success, answer with a failing Result-Code, never answer} and an answer timing {before the client's Write returns, right after, after a quarter interval}; 1 in 3 cases the peer sends 1..3 watchdog requests of its own right after the handshake; asserted: the peer's requests are answered with its identifiers, no DWR before the CEA was delivered, identity in every DWR, fresh DWRs >= WatchdogInterval after the previous acknowledgement, retransmissions byte-identical and >= RetransmitInterval apart, a silent peer gets exactly MaxRetransmits+1 transmissions and is then closed with nothing sent afterwards, a peer answering with success in time is never closed and sees a further DWR; every case is distinct and non-trivial (each exercises at least one full watchdog round); mismatches that a scheduling delay could explain must reproduce 3 times",
 	Gen:  genCase, Run: runCase, Classify: classify, Attempts: 2,
 })
 
